@@ -509,7 +509,7 @@ pub fn s_first() -> Vec<WCfg> {
     let mut out = Vec::new();
     let policies: [(u32, u32, u16); 6] = [(0, 5000, 1008), (1000, 0, 1008), (0, 1, 40), (u32::MAX, u32::MAX, 65535), (1, 1_000_000, 144), (7, 13, 35)];
     for (pi, (base, ppm, delta)) in policies.iter().enumerate() {
-        for kind in ["low-total", "low-expiry", "both"] {
+        for kind in ["low-total", "low-expiry", "both", "no-total-low-forward"] {
             let mut c = WCfg::base(&format!("S-first/p{}/{}", pi, kind));
             c.fee_base = *base;
             c.fee_ppm = *ppm;
@@ -518,8 +518,10 @@ pub fn s_first() -> Vec<WCfg> {
             let inv = c.add_invoice(&InvoiceSpec::fixed(1, 1_000_000));
             let need = c.required(1_000_000).min(u64::MAX as u128) as u64;
             let total = if kind == "low-expiry" { need } else { need - 1 };
-            let t = add_htlc_full(&mut c, "f", inv, 400_000, Some(total), None);
-            if kind != "low-total" {
+            // without a declared total the HTLC's own forward amount is the declared total
+            let declared = if kind == "no-total-low-forward" { None } else { Some(total) };
+            let t = add_htlc_full(&mut c, "f", inv, 400_000, declared, None);
+            if kind != "low-total" && kind != "no-total-low-forward" {
                 c.templates[t].spec.cltv_expiry = c.start_height + *delta as u32 - 1;
             } else {
                 c.templates[t].spec.cltv_expiry = c.start_height + *delta as u32;
